@@ -1,5 +1,5 @@
 """C08 — search value equals fixed-depth minimax (memo key, branch duality, leaf/recursion discipline, root selection)."""
-from sa.sym import Engine, show, show_cond, subterms, C, is_const, PathLimit
+from sa.sym import assertion_indices, Engine, show, show_cond, subterms, C, is_const, PathLimit
 from .common import *
 from .tables import is_true, is_false
 from . import c07
@@ -160,6 +160,7 @@ def loop_info(outs, flag):
         heads = [e for e in o.events if e[0] == 'loop_head']
         if not heads:
             continue
+        asserted = assertion_indices(outs, o)          # `lock.write().unwrap()` and the like: the other side panics
         if inv:
             import copy as _copy
             o = _copy.copy(o)
@@ -200,7 +201,9 @@ def loop_info(outs, flag):
         # conditions decided inside the iteration (after the loop head): besides the cut-off comparison only the plumbing may branch
         # (iterator exhausted?, apply/undo/child returned Ok?) - any other test is a second way of leaving, or skipping part of, the loop
         if o.kind in ('return', 'backedge') and len(head) > 4:
-            for a, v in o.conds[head[4]:]:
+            for i_, (a, v) in enumerate(o.conds):
+                if i_ < head[4] or i_ in asserted:
+                    continue
                 if a[0] == 'bin' and a[1] in ('Le', 'Ge', 'Lt', 'Gt') and any(s == child for s in subterms(a)):
                     continue
                 x = a[1] if a[0] == 'discr' else None
